@@ -56,9 +56,53 @@ def taint_from(fn, seeds):
     return t, via_collection
 
 
+def move_chain(f, start):
+    """Locals a value passes through by plain moves (let-bindings, argument passing into inlined helpers), and
+    every other use of any of them: (aliases, [(site, how, local)])."""
+    du = defuse(f)
+    aliases = {start}
+    work = [start]
+    other = []
+    while work:
+        l = work.pop()
+        for site, how in du.uses.get(l, []):
+            n = site.node
+            if site.is_term and n["k"] == "drop":
+                continue
+            if not site.is_term and how == "rv" and n["rv"]["k"] == "use" and "mv" in n["rv"]["op"] \
+                    and not n["rv"]["op"]["mv"].get("p") and not n["lhs"].get("p"):
+                t = n["lhs"]["l"]
+                if t not in aliases:
+                    aliases.add(t)
+                    work.append(t)
+                continue
+            other.append((site, how, l))
+    return aliases, other
+
+
+def _ret_chain(fn):
+    """Locals whose value becomes the function's return value by plain moves (through inlined helper returns)."""
+    chain = {0}
+    changed = True
+    while changed:
+        changed = False
+        for b in fn.blocks:
+            if b.get("cleanup"):
+                continue
+            for s in b["stmts"]:
+                if s["lhs"]["l"] in chain and not s["lhs"].get("p") and s["rv"]["k"] == "use":
+                    pl = op_place(s["rv"]["op"])
+                    if pl and not pl.get("p") and pl["l"] not in chain:
+                        chain.add(pl["l"])
+                        changed = True
+    return chain
+
+
 def ok_blocks(fn):
+    """Blocks that build the Ok(..) this function (or view) returns."""
+    ch = _ret_chain(fn)
     return [bi for bi, b in enumerate(fn.blocks) if not b.get("cleanup") and any(
-        s["lhs"]["l"] == 0 and not s["lhs"].get("p") and s["rv"]["k"] == "agg" and s["rv"].get("variant") == "Ok"
+        s["lhs"]["l"] in ch and not s["lhs"].get("p") and s["rv"]["k"] == "agg" and s["rv"].get("variant") == "Ok"
         and s["rv"].get("adt") == "core::result::Result" for s in b["stmts"])]
 
 
@@ -68,7 +112,8 @@ def ok_blocks(fn):
 
 def _closure_produces_handle(fx, cl):
     """The closure spawns a thread and returns its JoinHandle."""
-    f = fx.fn(cl)
+    import views
+    f = views.view(fx, cl, depth=3) if cl in fx.fns else None
     if f is None:
         return False
     for bi, t in q.calls_to(f, SPAWN):
@@ -79,8 +124,9 @@ def _closure_produces_handle(fx, cl):
 
 
 def _closure_joins_item(fx, cl):
-    """The closure joins the JoinHandle it receives as an item/parameter."""
-    f = fx.fn(cl)
+    """The closure / function value joins the JoinHandle it receives as an item/parameter."""
+    import views
+    f = views.view(fx, cl, depth=3) if cl in fx.fns else None
     if f is None:
         return False
     params = [l for l in range(1, f.argc + 1) if "JoinHandle" in f.locals[l]["ty"]]
@@ -176,8 +222,12 @@ def spawn_join(fx, crates=("libxcp", "xcp")):
 # --------------------------------------------------------------------------
 
 def sender_protocol(fx):
+    """The sending half of the Operation work queue has exactly one owner: it is created in the driver's copy(),
+    moved (never cloned) into exactly one spawned closure, and that closure is the walker role, which owns it by
+    value -- so the queue closes when the walker returns, on every path.  Evaluated on the inlined views of both
+    copy() functions (helpers that spawn the walker are followed)."""
+    import views
     obs = []
-    # nobody clones a Sender<Operation>
     n = 0
     for f in ro.fns_in_scope(fx, crates=("libxcp",)):
         for bi, t in f.calls():
@@ -190,81 +240,69 @@ def sender_protocol(fx):
                 n += 1
     obs.append(Ob("R-THREAD", mkkey("R-THREAD", "libxcp", "Sender<Operation>::clone", 0, "scan"), True, "", "libxcp",
                   "no Sender<Operation>::clone in libxcp"))
-    # the walker owns its sender by value
-    w = fx.fn(WALKER)
-    if w is None:
-        obs.append(anchor_ob("R-THREAD", WALKER))
-    else:
-        tys = [w.locals[i]["ty"] for i in range(1, w.argc + 1)]
-        byval = [t for t in tys if t.startswith("crossbeam_channel::channel::Sender<") and OP_T in t]
-        obs.append(Ob("R-THREAD", mkkey("R-THREAD", WALKER, "param Sender<Operation>", 0, "by-value"), bool(byval), w.loc(),
-                      WALKER, "tree_walker takes the work-queue sender by value (dropped on every exit): %s" % bool(byval),
-                      None if byval else dict(params=tys)))
-        # and does not stash it away
-        for l in range(1, w.argc + 1):
-            if w.locals[l]["ty"] in byval:
-                tainted, via = taint_from(w, [l])
-                leaks = []
-                for bi, t in w.calls():
-                    o = callee_orig(t)
-                    if o in (VEC_PUSH, "core::mem::forget", "alloc::boxed::Box::<T>::leak", SPAWN) and any(
-                            op_local(a) in tainted for a in t["args"]):
-                        leaks.append(q.loc_of(t))
-                obs.append(Ob("R-THREAD", mkkey("R-THREAD", WALKER, "param Sender<Operation>", 0, "not-leaked"), not leaks,
-                              w.loc(), WALKER, "the sender is not stored, forgotten or handed to another thread: %s" % (not leaks),
-                              dict(sites=leaks) if leaks else None))
-    # in each driver: the sender half of the work queue is moved into exactly one spawned closure
+    walker_roles = set(lab for lab, v in views.find_views(fx, lambda v: views._has_call(
+        v, lambda t: (callee_path(t) or "").startswith("<walkdir::") and callee_orig(t) == NEXT)))
     for d in ENTRY_POINTS:
-        f = fx.fn(d)
-        if f is None:
+        if d not in fx.fns:
             continue
+        f = views.view(fx, d, depth=6)
         du = defuse(f)
         found = 0
         for bi, t in q.calls_to(f, UNBOUNDED):
             if OP_T not in t.get("dest_ty", ""):
                 continue
             found += 1
-            # the tuple's .0 is the sender
             senders = []
             for site, how in du.uses.get(t["dest"]["l"], []):
-                if not site.is_term and how == "rv":
-                    p = op_place(site.node["rv"].get("op", {})) if site.node["rv"]["k"] == "use" else None
-                    if p and p.get("p") and isinstance(p["p"][0], dict) and p["p"][0].get("f") == 0:
+                if not site.is_term and how == "rv" and site.node["rv"]["k"] == "use":
+                    p_ = op_place(site.node["rv"]["op"])
+                    if p_ and p_.get("p") and isinstance(p_["p"][0], dict) and p_["p"][0].get("f") == 0:
                         senders.append(site.node["lhs"]["l"])
             for sl in senders:
-                uses = [(s, h) for s, h in du.uses.get(sl, []) if not (s.is_term and s.node["k"] == "drop")]
+                aliases, other = move_chain(f, sl)
                 moved_into = []
-                other = []
-                for s, h in uses:
-                    if not s.is_term and s.node["rv"]["k"] == "agg" and s.node["rv"].get("ak") == "closure":
-                        moved_into.append(s.node["rv"]["closure"])
+                rest = []
+                for site, how, l in other:
+                    nd = site.node
+                    if not site.is_term and nd["rv"]["k"] == "agg" and nd["rv"].get("ak") == "closure" and \
+                            any(op_local(o_) == l and "mv" in o_ for o_ in nd["rv"]["fields"]):
+                        moved_into.append(nd["rv"]["closure"])
                     else:
-                        other.append(repr(s))
+                        rest.append("%r %s" % (site, how))
                 spawned = set()
                 for sb, stt in q.calls_to(f, SPAWN):
                     spawned |= set(stt["fn"].get("fnvals", []))
-                ok = len(moved_into) == 1 and not other and moved_into[0] in spawned
+                ok = len(moved_into) == 1 and not rest and moved_into[0] in spawned
                 obs.append(Ob("R-THREAD", mkkey("R-THREAD", d, "work-queue sender", 0, "moved-once"), ok, q.loc_of(t), d,
                               "the work-queue sender is moved into exactly one spawned closure and used nowhere else: %s"
-                              % (moved_into + other), None if ok else dict(closures=moved_into, other_uses=other)))
-                # that closure passes it on to tree_walker by value
+                              % ([m_.split("::")[-1] for m_ in moved_into] + rest), None if ok else dict(closures=moved_into, other_uses=rest)))
                 for c in moved_into:
                     cf = fx.fn(c)
-                    okw = cf is not None and any(True for _ in q.calls_to(cf, WALKER))
-                    obs.append(Ob("R-THREAD", mkkey("R-THREAD", c, WALKER, 0, "sender-to-walker"), okw, cf.loc() if cf else "",
-                                  c, "the closure owning the sender is the one that runs tree_walker: %s" % okw))
+                    okw = c in walker_roles
+                    byv = cf is not None and all(x["by"] == "value" for x in cf.captures if "Sender<" in x["ty"] and OP_T in x["ty"])
+                    obs.append(Ob("R-THREAD", mkkey("R-THREAD", d, "work-queue sender", 0, "owned-by-walker"), okw and byv,
+                                  cf.loc() if cf else "", c,
+                                  "the closure owning the sender (by value: %s) is the role that walks the tree: %s" % (byv, okw)))
+                    # the walker role does not stash the sender away
+                    wv = views.view(fx, c, depth=6)
+                    leaks = []
+                    if wv is not None:
+                        for bi2, t2 in wv.calls():
+                            o2 = callee_orig(t2)
+                            if o2 in (VEC_PUSH, "core::mem::forget", "alloc::boxed::Box::<T>::leak", SPAWN) and \
+                                    any("Sender<" in ty and OP_T in ty for ty in t2.get("arg_tys", [])):
+                                leaks.append(q.loc_of(t2))
+                    obs.append(Ob("R-THREAD", mkkey("R-THREAD", d, "work-queue sender", 0, "not-leaked"), not leaks,
+                                  cf.loc() if cf else "", c,
+                                  "the walker role does not store, forget or hand on the sender: %s" % (not leaks),
+                                  dict(sites=leaks) if leaks else None))
         if not found:
             obs.append(anchor_ob("R-THREAD", "%s creates the Operation work queue" % d))
     # consumers end when the queue closes: blocking iteration, no polling
-    for wk in (PF_WORKER, PB_DISPATCH):
-        f = fx.fn(wk)
-        if f is None:
-            obs.append(anchor_ob("R-THREAD", wk))
-            continue
+    for lab, f in views.workers(fx):
         it = [t for bi, t in q.calls_to(f, INTO_ITER) if "Receiver<" + OP_T in " ".join(t.get("arg_tys", []))]
-        obs.append(Ob("R-THREAD", mkkey("R-THREAD", wk, "Receiver<Operation>", 0, "iterated"), bool(it), f.loc(), wk,
-                      "%s consumes its queue with the blocking iterator that ends when the queue closes: %s" % (
-                          wk.split("::")[-1], bool(it))))
+        obs.append(Ob("R-THREAD", mkkey("R-THREAD", lab, "Receiver<Operation>", 0, "iterated"), bool(it), f.loc(), lab,
+                      "%s consumes its queue with the blocking iterator that ends when the queue closes: %s" % (lab, bool(it))))
     polling = {"crossbeam_channel::channel::Receiver::<T>::try_recv", "crossbeam_channel::channel::Receiver::<T>::try_iter",
                "crossbeam_channel::channel::Receiver::<T>::recv_timeout", "crossbeam_channel::channel::Receiver::<T>::recv_deadline",
                "std::thread::yield_now", "std::thread::sleep", "core::hint::spin_loop"}
@@ -309,9 +347,12 @@ def pool_bound(fx, max_workers=64, nofile=1024):
     obs = []
     QL = "blocking_threadpool::Builder::queue_len"
     BUILD = "blocking_threadpool::Builder::build"
-    f = fx.fn(PB_DISPATCH)
-    if f is None:
-        return [anchor_ob("R-THREAD", PB_DISPATCH)]
+    import views
+    cands = views.find_views(fx, lambda v: views._has_call(v, lambda t: callee_orig(t) == BUILD))
+    cands = [(lab, v) for lab, v in cands if lab not in ENTRY_POINTS]
+    if not cands:
+        return [anchor_ob("R-THREAD", "a role that builds the block pool")]
+    f = cands[0][1]
     ql = q.calls_to(f, QL)
     if not ql:
         obs.append(Ob("R-THREAD", mkkey("R-THREAD", PB_DISPATCH, QL, 0, "bounded-queue"), False, f.loc(), PB_DISPATCH,
@@ -442,43 +483,58 @@ def handle_confinement(fx):
 # --------------------------------------------------------------------------
 
 def updater_protocol(fx):
+    """The channel closes: main's updater Arc is moved (not cloned) into the closure that runs the copy and main
+    keeps nothing; that closure and both copy() functions own it by value; main's Error arm returns Err."""
+    import views
     obs = []
-    m = fx.fn(MAIN)
+    m = views.main_view(fx)
     if m is None:
         return [anchor_ob("R-THREAD", MAIN)]
     du = defuse(m)
-    # locals of main holding the updater Arc
-    arcs = [i for i, l in enumerate(m.locals) if l["ty"].startswith("alloc::sync::Arc<") and DYN_UPD in l["ty"]
-            and m.name_of_local.get(i)]
-    if not arcs:
-        obs.append(anchor_ob("R-THREAD", "main holds an Arc<dyn StatusUpdater>"))
     spawned = set()
     for sb, st in q.calls_to(m, SPAWN):
         spawned |= set(st["fn"].get("fnvals", []))
-    for a in arcs:
-        uses = [(s, h) for s, h in du.uses.get(a, []) if not (s.is_term and s.node["k"] == "drop")]
-        moved = []
-        other = []
-        for s, h in uses:
-            if not s.is_term and s.node["rv"]["k"] == "agg" and s.node["rv"].get("ak") == "closure" and \
-                    "mv" in [list(o.keys())[0] for o in s.node["rv"]["fields"] if op_local(o) == a]:
-                moved.append(s.node["rv"]["closure"])
+    # values of type Arc<dyn StatusUpdater> created in main (Arc::new / coercion), followed through moves
+    starts = []
+    for bi, t in m.calls():
+        if callee_orig(t) == "alloc::sync::Arc::<T>::new" and ("ChannelUpdater" in t.get("dest_ty", "") or DYN_UPD in t.get("dest_ty", "")):
+            starts.append(t["dest"]["l"])
+    if not starts:
+        obs.append(anchor_ob("R-THREAD", "main creates the updater Arc"))
+    for a in starts:
+        # an unsizing cast to Arc<dyn ..> continues the chain
+        aliases, other = move_chain(m, a)
+        changed = True
+        while changed:
+            changed = False
+            for site, how, l in list(other):
+                nd = site.node
+                if not site.is_term and nd["rv"]["k"] == "cast" and not nd["lhs"].get("p"):
+                    al2, ot2 = move_chain(m, nd["lhs"]["l"])
+                    other.remove((site, how, l))
+                    other += ot2
+                    aliases |= al2
+                    changed = True
+        moved, rest = [], []
+        for site, how, l in other:
+            nd = site.node
+            if not site.is_term and nd["rv"]["k"] == "agg" and nd["rv"].get("ak") == "closure" and \
+                    any(op_local(o_) == l and "mv" in o_ for o_ in nd["rv"]["fields"]):
+                moved.append(nd["rv"]["closure"])
             else:
-                other.append("%r %s" % (s, h))
-        ok = len(moved) == 1 and moved[0] in spawned and not other
+                rest.append("%r %s" % (site, how))
+        ok = len(moved) == 1 and moved[0] in spawned and not rest
         obs.append(Ob("R-THREAD", mkkey("R-THREAD", MAIN, "Arc<dyn StatusUpdater>", 0, "moved-into-copy"), ok, m.loc(), MAIN,
                       "main's updater Arc is moved into the copy closure and nothing else keeps it (so the channel closes): %s"
-                      % (moved + other), None if ok else dict(moved=moved, other=other)))
-    # the copy closure hands it to the driver by value
+                      % ([x.split("::")[-1] for x in moved] + rest), None if ok else dict(moved=moved, other=rest)))
     for c in spawned:
         cf = fx.fn(c)
         if cf is None:
             continue
         caps = [x for x in cf.captures if DYN_UPD in x["ty"] or "ChannelUpdater" in x["ty"]]
         okc = all(x["by"] == "value" for x in caps) and bool(caps)
-        obs.append(Ob("R-THREAD", mkkey("R-THREAD", c, "capture updater", 0, "by-value"), okc, cf.loc(), c,
+        obs.append(Ob("R-THREAD", mkkey("R-THREAD", MAIN, "copy closure", 0, "captures-updater-by-value"), okc, cf.loc(), c,
                       "the copy closure owns the updater (captured by value): %s" % [(x["name"], x["by"]) for x in caps]))
-    # CopyDriver::copy takes the updater by value in both drivers
     for d in ENTRY_POINTS:
         f = fx.fn(d)
         if f is None:
@@ -487,7 +543,6 @@ def updater_protocol(fx):
         okv = any(t.startswith("alloc::sync::Arc<") and DYN_UPD in t for t in tys)
         obs.append(Ob("R-THREAD", mkkey("R-THREAD", d, "param updater", 0, "by-value"), okv, f.loc(), d,
                       "copy() receives the updater Arc by value: %s" % okv))
-    # main's receiving loop: the Error arm returns Err
     obs += main_consumer_table(fx)
     return obs
 
@@ -495,8 +550,11 @@ def updater_protocol(fx):
 def main_consumer_table(fx):
     """StatusUpdate variant -> action in main: the Error arm must end in an Err return (exit status != 0)."""
     from p_kinds import type_variant_switches
+    import views
     obs = []
-    m = fx.fn(MAIN)
+    m = views.main_view(fx)
+    if m is None:
+        return [anchor_ob("R-TABLE", "xcp::main")]
     sw = type_variant_switches(m, STATUS_UPDATE)
     if not sw:
         return [anchor_ob("R-TABLE", "main dispatches on StatusUpdate")]
@@ -700,35 +758,39 @@ def block_jobs_offset_only(fx):
 
 
 def pool_join_before_ok(fx):
+    """The role that builds the block pool waits for it before returning Ok."""
+    import views
     obs = []
-    f = fx.fn(PB_DISPATCH)
-    if f is None:
-        return [anchor_ob("R-THREAD", PB_DISPATCH)]
-    cfg = cfg_of(f)
-    pj = [bi for bi, t in q.calls_to(f, POOL_JOIN)]
-    oks = ok_blocks(f)
-    ok = bool(pj) and bool(oks) and all(any(cfg.dominates(j, o) for j in pj) for o in oks)
-    obs.append(Ob("R-THREAD", mkkey("R-THREAD", PB_DISPATCH, POOL_JOIN, 0, "before-Ok"), ok, f.loc(), PB_DISPATCH,
-                  "the dispatcher waits for the block pool before returning Ok: %s" % ok,
-                  None if ok else dict(pool_join=pj, ok_blocks=oks)))
+    BUILD = "blocking_threadpool::Builder::build"
+    vs = views.find_views(fx, lambda v: views._has_call(v, lambda t: callee_orig(t) == BUILD))
+    vs = [(lab, v) for lab, v in vs if lab not in ENTRY_POINTS]
+    if not vs and PB_QFR in fx.fns:
+        return [anchor_ob("R-THREAD", "a role that builds the block pool")]
+    for lab, f in vs:
+        cfg = cfg_of(f)
+        pj = [bi for bi, t in q.calls_to(f, POOL_JOIN)]
+        oks = ok_blocks(f)
+        own = oks
+        ok = bool(pj) and bool(own) and all(any(cfg.dominates(j, o) for j in pj) for o in own)
+        obs.append(Ob("R-THREAD", mkkey("R-THREAD", "role:pool-owner", POOL_JOIN, 0, "before-Ok"), ok, f.loc(), lab,
+                      "the dispatcher waits for the block pool before returning Ok: %s" % ok,
+                      None if ok else dict(pool_join=pj, ok_blocks=own)))
     return obs
 
 
 def dirs_by_walker(fx):
+    import views
     obs = []
-    w = fx.fn(WALKER)
+    w = views.walker_view(fx)
     d = ro.performers(fx, w, CREATE_DIR_ALL, direct_only=True) if w else []
     obs.append(Ob("R-ORDER", mkkey("R-ORDER", WALKER, CREATE_DIR_ALL, 0, "in-walker-thread"), bool(d), w.loc() if w else "", WALKER,
-                  "directories are created by the walker itself, synchronously with the iteration: %s" % bool(d)))
+                  "directories are created by the walker role itself, synchronously with the iteration: %s" % bool(d)))
     k = 0
     for f in ro.fns_in_scope(fx, crates=("libxcp",)):
-        for bi, t in q.calls_to(f, {"walkdir::WalkDir::contents_first", "walkdir::WalkDir::sort_by",
-                                     "walkdir::WalkDir::sort_by_key", "walkdir::WalkDir::sort_by_file_name"}):
-            bad = callee_orig(t) == "walkdir::WalkDir::contents_first"
-            if bad:
-                obs.append(Ob("R-ORDER", mkkey("R-ORDER", f.path, callee_orig(t), k, "contents-first"), False, q.loc_of(t), f.path,
-                              "contents_first: children are yielded before their directory", dict(callee=callee_orig(t))))
-                k += 1
+        for bi, t in q.calls_to(f, {"walkdir::WalkDir::contents_first"}):
+            obs.append(Ob("R-ORDER", mkkey("R-ORDER", f.path, callee_orig(t), k, "contents-first"), False, q.loc_of(t), f.path,
+                          "contents_first: children are yielded before their directory", dict(callee=callee_orig(t))))
+            k += 1
     obs.append(Ob("R-ORDER", mkkey("R-ORDER", "libxcp", "contents_first-scan", 0), True, "", "libxcp",
                   "the walk yields a directory before its contents (no contents_first)"))
     return obs
@@ -739,7 +801,7 @@ def c06(ctx):
     import p_kinds, p_meta
     ctx.add(dirs_by_walker(fx))
     ctx.add([o for o in p_kinds.filetype_table(fx) if "Dir" in o.key or "variants" in o.key])
-    ctx.add([o for o in r_err.run(fx, crates=("libxcp",)) if o.fn == WALKER and "create_dir_all" in o.key])
+    ctx.add([o for o in r_err.run(fx, crates=("libxcp",)) if "create_dir" in o.key])
     ctx.add(block_jobs_offset_only(fx))
     ctx.add(p_meta.ownership_facts(fx))
     ctx.add(spawn_join(fx, crates=("libxcp",)))
@@ -764,7 +826,13 @@ def c07(ctx):
     r_short.run(fx, "A", reach=p_gate.driver_reach(fx))
     ctx.add(r_short.run.zero_progress)
     # error paths return (rather than park): error discipline of the thread bodies
-    ctx.add([o for o in r_err.run(fx, crates=("libxcp",)) if o.fn in (WALKER, PF_WORKER, PB_DISPATCH, PF_COPY, PB_COPY)])
+    roles_, kinds_ = thread_roles(fx)
+    members = set()
+    for r_, e_ in roles_.items():
+        if kinds_.get(r_) == "thread":
+            members |= role_code(fx, e_, set(roles_.values()))
+    members |= set(ENTRY_POINTS)
+    ctx.add([o for o in r_err.run(fx, crates=("libxcp",)) if o.fn in members])
 
 
 def c20(ctx):
